@@ -351,13 +351,21 @@ func TestLifecyclersRapid(t *testing.T) {
 					racer++
 					joiner := fmt.Sprintf("joiner-%d", racer)
 					tok := uint32(4000000000) + uint32(racer)
-					in.rec.Interpose = func() {
+					rival := func() {
 						_ = store.CAS(context.Background(), lcx.RingKey, func(v interface{}) (interface{}, bool, error) {
 							rd := ring.GetOrCreateRingDesc(v)
 							// another member registers itself at this very moment
 							rd.AddIngester(joiner, joiner+":1", "z", []uint32{tok}, ring.ACTIVE, time.Now(), false, time.Time{}, nil)
 							return rd, true, nil
 						})
+					}
+					if racer%2 == 0 {
+						in.rec.Interpose = rival
+					} else {
+						// the other member's write lands immediately before the lifecycler's next write: whatever
+						// the lifecycler read earlier no longer holds, its function is handed the new content
+						in.rec.SetBefore(func() bool { rival(); return true })
+						vx.Class("writes_preceded_by_another_members_registration", 1)
 					}
 					vx.Class("writes_that_lost_a_race", 1)
 					nontrivial = true
